@@ -13,7 +13,11 @@ import (
 func TestVerifC10Grid(t *testing.T) {
 	st := vfNewStats(t, "C10")
 	rapid.Check(t, func(rt *rapid.T) {
-		vfGridRun(rt, st, "C10", vfGridOpts{})
+		mod, desc := vfGenCfgKnobs(rt, "cfg")
+		if desc != "" {
+			st.Class("with-" + desc)
+		}
+		vfGridRun(rt, st, "C10", vfGridOpts{CCfgMod: mod, Note: desc})
 	})
 }
 
